@@ -58,24 +58,30 @@ theorem finishDelete_shrunk (st : St) (o : Obj) (thr : Option Key) : Shrunk (fin
   · exact deactivateObj_shrunk st o
   · exact removeObj_shrunk st o
 
-theorem deleteChild_shrunk (rec : St → Obj → St) (hrec : ∀ s co, Shrunk (rec s co) s) (s : St) (c : Key) :
-    Shrunk (deleteChild rec s c) s := by
-  unfold deleteChild
-  split
-  · exact hrec _ _
-  · exact Shrunk.refl _
-
-theorem foldl_shrunk (g : St → Key → St) (hg : ∀ s c, Shrunk (g s c) s) (cs : List Key) :
-    ∀ st : St, Shrunk (cs.foldl g st) st := by
+theorem deleteChildren_shrunk (rec : St → Obj → St × Bool) (hrec : ∀ s co, Shrunk (rec s co).1 s) :
+    ∀ (cs : List Key) (s : St), Shrunk (deleteChildren rec cs s).1 s := by
+  intro cs
   induction cs with
-  | nil => intro st; exact Shrunk.refl _
-  | cons c cs ih => intro st; exact (ih (g st c)).trans (hg st c)
+  | nil => intro s; exact Shrunk.refl _
+  | cons c cs ih =>
+    intro s
+    simp only [deleteChildren]
+    split
+    · split
+      · exact (ih _).trans (hrec _ _)
+      · exact hrec _ _
+    · exact ih s
 
 theorem deleteHelper_shrunk : ∀ (f : Nat) (st : St) (o : Obj) (c : Bool) (busy : List Key) (thr : Option Key),
     Shrunk (deleteHelper f st o c busy thr).1 st := by
   intro f
   induction f with
-  | zero => intro st o c busy thr; exact finishDelete_shrunk st o thr
+  | zero =>
+    intro st o c busy thr
+    simp only [deleteHelper]
+    split
+    · exact Shrunk.refl _
+    · exact finishDelete_shrunk st o thr
   | succ f ih =>
     intro st o c busy thr
     simp only [deleteHelper]
@@ -83,8 +89,11 @@ theorem deleteHelper_shrunk : ∀ (f : Nat) (st : St) (o : Obj) (c : Bool) (busy
     · exact Shrunk.refl _
     · split
       · exact Shrunk.refl _
-      · refine (finishDelete_shrunk _ o thr).trans ?_
-        exact foldl_shrunk _ (fun s k => deleteChild_shrunk _ (fun s co => ih s co c _ thr) s k) _ st
+      · have hch := deleteChildren_shrunk (fun s co => deleteHelper f s co c (o.key :: busy) thr)
+          (fun s co => ih s co c _ thr) (children st o.key) st
+        split
+        · exact (finishDelete_shrunk _ o thr).trans hch
+        · exact hch
 
 theorem deleteObject_shrunk (st : St) (k : Key) (c : Bool) (thr : Option Key := none) :
     Shrunk (deleteObject st k c thr).1 st := by
@@ -103,24 +112,35 @@ theorem Shrunk.has_false {r s : St} (h : Shrunk r s) (k : Key) (hk : s.has k = f
 theorem removeObj_has_false (st : St) (o : Obj) : (removeObj st o).has o.key = false := by
   simp [removeObj, St.has]
 
-/-- the fault does not concern this object: the tail of the helper removes it -/
-theorem finishDelete_removes (st : St) (o : Obj) (thr : Option Key) (ht : thr ≠ some o.key) :
-    (finishDelete st o thr).1.has o.key = false ∧ (finishDelete st o thr).2 = true := by
-  have : (thr = some o.key) = False := by simpa using ht
-  simp only [finishDelete, this, decide_false, Bool.false_and, Bool.false_eq_true, if_false]
-  exact ⟨removeObj_has_false st o, trivial⟩
+/-- a tail of the helper that reports success has removed the object -/
+theorem finishDelete_ok_removes (st : St) (o : Obj) (thr : Option Key) (h : (finishDelete st o thr).2 = true) :
+    (finishDelete st o thr).1.has o.key = false := by
+  unfold finishDelete at h ⊢
+  split
+  · rename_i ht; simp [ht] at h
+  · exact removeObj_has_false st o
 
-/-- a cascading helper call for an object whose deletion is not already under way, and whose deactivation is not
-    the one that fails, removes that object — whatever happens to its dependents -/
-theorem deleteHelper_removes (f : Nat) (st : St) (o : Obj) (busy : List Key) (thr : Option Key)
-    (hb : o.key ∉ busy) (ht : thr ≠ some o.key) :
-    (deleteHelper f st o true busy thr).1.has o.key = false := by
+/-- a helper call that reports success, made for an object whose deletion is not already under way, has removed
+    that object — whatever the graph and whatever deactivation fails -/
+theorem deleteHelper_ok_removes (f : Nat) (st : St) (o : Obj) (c : Bool) (busy : List Key) (thr : Option Key)
+    (hb : o.key ∉ busy) (hok : (deleteHelper f st o c busy thr).2 = true) :
+    (deleteHelper f st o c busy thr).1.has o.key = false := by
+  have hb' : busy.contains o.key = false := by simpa using hb
   cases f with
-  | zero => exact (finishDelete_removes st o thr ht).1
+  | zero =>
+    simp only [deleteHelper, hb', Bool.false_eq_true, if_false] at hok ⊢
+    exact finishDelete_ok_removes st o thr hok
   | succ f =>
-    have hb' : busy.contains o.key = false := by simpa using hb
-    simp only [deleteHelper, Bool.not_true, Bool.and_false, Bool.false_eq_true, if_false, hb']
-    exact (finishDelete_removes _ o thr ht).1
+    simp only [deleteHelper, hb', Bool.false_eq_true, if_false] at hok ⊢
+    split at hok
+    · cases hok
+    · rename_i h1
+      simp only [h1] at hok ⊢
+      split at hok
+      · rename_i h2
+        simp only [h2, if_true] at hok ⊢
+        exact finishDelete_ok_removes _ o thr hok
+      · cases hok
 
 theorem find_key (st : St) (k : Key) (o : Obj) (h : st.find k = some o) : o.key = k := by
   have := List.find?_some h
@@ -132,36 +152,72 @@ theorem find_none_has (st : St) (k : Key) (h : st.find k = none) : st.has k = fa
   intro x hx
   simpa using h x hx
 
-/-- the loop over the dependents (cascading): every one of them other than the objects whose deletion is
-    under way, and other than the one whose deactivation fails, is gone after the loop -/
-theorem foldl_children_removed (f : Nat) (busy : List Key) (thr : Option Key) (cs : List Key) :
-    ∀ (st : St) (c : Key), c ∈ cs → c ∉ busy → thr ≠ some c →
-      (cs.foldl (deleteChild (fun s co => (deleteHelper f s co true busy thr).1)) st).has c = false := by
+/-- the loop over the dependents: if it reports success, every one of them other than the objects whose deletion
+    is under way is gone after the loop -/
+theorem deleteChildren_removed (f : Nat) (cas : Bool) (busy : List Key) (thr : Option Key) (cs : List Key) :
+    ∀ (st : St) (c : Key), c ∈ cs → c ∉ busy →
+      (deleteChildren (fun s co => deleteHelper f s co cas busy thr) cs st).2 = true →
+      (deleteChildren (fun s co => deleteHelper f s co cas busy thr) cs st).1.has c = false := by
   induction cs with
   | nil => intro st c hc; cases hc
   | cons a cs ih =>
-    intro st c hc hb ht
-    simp only [List.foldl_cons]
-    by_cases hin : c ∈ cs
-    · exact ih _ c hin hb ht
-    · have hca : c = a := by
-        rcases List.mem_cons.mp hc with h | h
-        · exact h
-        · exact absurd h hin
-      subst hca
-      have hrest := foldl_shrunk (deleteChild (fun s co => (deleteHelper f s co true busy thr).1))
-        (fun s k => deleteChild_shrunk _ (fun s co => deleteHelper_shrunk f s co true busy thr) s k) cs
-        (deleteChild (fun s co => (deleteHelper f s co true busy thr).1) st c)
-      apply hrest.has_false
-      unfold deleteChild
-      split
-      · rename_i co hfind
-        have hk := find_key st c co hfind
-        have := deleteHelper_removes f st co busy thr (by rw [hk]; exact hb) (by rw [hk]; exact ht)
-        rw [hk] at this
-        exact this
-      · rename_i hfind
-        exact find_none_has st c hfind
+    intro st c hc hb hok
+    simp only [deleteChildren] at hok ⊢
+    split at hok
+    · rename_i co hfind
+      try simp only [hfind]
+      split at hok
+      · rename_i hr
+        simp only [hr, if_true]
+        by_cases hin : c ∈ cs
+        · exact ih _ c hin hb hok
+        · have hca : c = a := by
+            rcases List.mem_cons.mp hc with h | h
+            · exact h
+            · exact absurd h hin
+          subst hca
+          apply (deleteChildren_shrunk _ (fun s co => deleteHelper_shrunk f s co cas busy thr) cs _).has_false
+          have hk := find_key st c co hfind
+          have := deleteHelper_ok_removes f st co cas busy thr (by rw [hk]; exact hb) hr
+          rwa [hk] at this
+      · cases hok
+    · rename_i hfind
+      try simp only [hfind]
+      by_cases hin : c ∈ cs
+      · exact ih _ c hin hb hok
+      · have hca : c = a := by
+          rcases List.mem_cons.mp hc with h | h
+          · exact h
+          · exact absurd h hin
+        subst hca
+        exact (deleteChildren_shrunk _ (fun s co => deleteHelper_shrunk f s co cas busy thr) cs _).has_false c
+          (find_none_has st c hfind)
+
+theorem deleteChildren_all_ok (rec : St → Obj → St × Bool) (hrec : ∀ s co, (rec s co).2 = true) :
+    ∀ (cs : List Key) (s : St), (deleteChildren rec cs s).2 = true := by
+  intro cs
+  induction cs with
+  | nil => intro s; rfl
+  | cons c cs ih =>
+    intro s
+    simp only [deleteChildren]
+    split
+    · simp only [hrec, if_true]; exact ih _
+    · exact ih s
+
+/-- without a fault a cascading helper call always reports success -/
+theorem deleteHelper_nofault_ok : ∀ (f : Nat) (st : St) (o : Obj) (busy : List Key),
+    (deleteHelper f st o true busy none).2 = true := by
+  intro f
+  induction f with
+  | zero => intro st o busy; simp only [deleteHelper, finishDelete]; split <;> simp
+  | succ f ih =>
+    intro st o busy
+    simp only [deleteHelper, Bool.not_true, Bool.and_false, Bool.false_eq_true, if_false]
+    split
+    · rfl
+    · rw [deleteChildren_all_ok _ (fun s co => ih s co _)]
+      simp [finishDelete]
 
 theorem deactivateObj_find (st : St) (k : Key) (o : Obj) (ho : st.find k = some o) :
     (deactivateObj st o).find k = some { o with active := false } := by
